@@ -59,6 +59,10 @@ def _valid(r, marker, fail=False):
         code = {"": HEADER + f"from library import lib\ndb.Setting = {marker}\nlib.f(d0.Setting)\nlib.f(2)\n", "lib": HEADER + "def f(a):\n    db.Mode = a\n"}
     else:
         code = {"": HEADER + f"def g(a):\n    db.Mode = a\nwhile True:\n    db.Setting = {marker}\n    g(d0.Setting)\n    g(1)\n    yield_()\n"}
+    if not fail and r.random() < 0.35:
+        # directive lines, also with unknown / mistyped names (they must stay silent)
+        d = r.choice(["# pytrapic: compact", "# pytrapic: no-labels, compact", "# pytrapic: remove-labels, fast", "# pytrapic: __class__", "#pytrapic:no-append-version,,", "# pytrapic: inline_functions, no-such-option"])
+        code[""] = d + "\n" + code[""]
     msg = dict(action="compile", code=code, options=opts)
     if r.random() < 0.3:
         msg.update(lineno=r.randint(0, 50), column=r.randint(0, 80), filename="x.py")
@@ -66,7 +70,7 @@ def _valid(r, marker, fail=False):
 
 
 def _fault(r):
-    k = r.randrange(16)
+    k = r.randrange(19)
     if k == 0:
         return b"!!!not base64!!!", "invalid-base64"
     if k == 1:
@@ -97,7 +101,14 @@ def _fault(r):
         return _b64(dict(action="compile", code={"notmain": "x = 1"}, options={})), "no-main-module"
     if k == 14:
         return _b64(dict(action="compile", code={"": 5}, options={})), "main-not-a-string"
-    return base64.b64encode(b"\xe2\x82"), "base64-of-truncated-utf8"
+    if k == 15:
+        return base64.b64encode(b"\xe2\x82"), "base64-of-truncated-utf8"
+    if k == 16:
+        # JSON may carry a lone surrogate as an escape: the answer has to be encodable all the same
+        return base64.b64encode(b'{"action": "\\ud800", "code": {"": "x = 1"}}'), "surrogate-in-action"
+    if k == 17:
+        return base64.b64encode(b'{"action": "compile", "code": {"": "db.Setting = 1\\n"}, "options": {"\\udc00": true}}'), "surrogate-in-option-name"
+    return base64.b64encode(b'{"action": "compile", "code": {"": "from stationeers_pytrapic.symbols import *\\ns0 = STR(\\"\\ud800\\")\\ndb.Setting = s0\\n"}, "options": {"compact": false}}'), "surrogate-in-source"
 
 
 def gen_case(task, i):
@@ -114,9 +125,15 @@ def gen_case(task, i):
         if x < 0.5:
             marker += 1
             lines.append(dict(kind="valid", marker=marker, data=_valid(r, marker).decode()))
-        elif x < 0.58:
+        elif x < 0.56:
             lines.append(dict(kind="valid-fail", data=_valid(r, 0, fail=True).decode()))
-        elif x < 0.66:
+        elif x < 0.62:
+            # any text at all as the main source (hostile texts of C10): some object must come back
+            t = r.choice(gen_text.UNSUPPORTED + gen_text.PRAGMA + gen_text.LUA + gen_text.RECURSION)
+            if r.random() < 0.5:
+                t = gen_text.mutate(HEADER + t, r)
+            lines.append(dict(kind="any", data=_b64(dict(action="compile", code={"": t}, options=opts_from_bits(r.randrange(256)))).decode()))
+        elif x < 0.68:
             lines.append(dict(kind="empty", data=""))
         else:
             d, name = _fault(r)
@@ -269,8 +286,14 @@ def check_case(case):
             else:
                 vio.append(dict(signature=dict(monitor="protocol", event="answer-does-not-belong-to-request"), detail=dict(position=k, marker=req["marker"], answer=str(obj)[:300])))
                 break
+        elif req["kind"] == "any":
+            if "error" in obj or "code" in obj:
+                cnt["answers_matched"] += 1
+            else:
+                vio.append(dict(signature=dict(monitor="protocol", event="answer-without-code-or-error"), detail=dict(position=k, answer=str(obj)[:300])))
+                break
         else:
-            if "error" in obj or (req["kind"] == "fault" and req.get("fault") in ("code-as-string", "very-long-line", "constexpr-misbehaves") and "code" in obj):
+            if "error" in obj or (req["kind"] == "fault" and req.get("fault") in ("code-as-string", "very-long-line", "constexpr-misbehaves", "surrogate-in-source") and "code" in obj):
                 cnt["answers_matched"] += 1
             else:
                 vio.append(dict(signature=dict(monitor="protocol", event="fault-answered-without-error"), detail=dict(position=k, fault=req.get("fault") or req["kind"], answer=str(obj)[:300])))
